@@ -7,10 +7,10 @@ Definition with_flag (i : nat) (q : squirks) : squirks :=
   let off (j : nat) (b : bool) := if i =? j then false else b in
   Build_squirks (off 0 (q_py_hash_in_string q)) (off 1 (q_ts_nonpublic_counted q)) (off 2 (q_ts_accessor_counted q))
                 (off 3 (q_ts_block_comment_counted q)) (off 4 (q_rs_name_collision q)) (off 5 (q_rs_block_comment_counted q))
-                (off 6 (q_py_setter_counted q)) (off 7 (q_py_cached_property_counted q)).
+                (off 6 (q_py_setter_counted q)) (off 7 (q_py_cached_property_counted q)) (off 8 (q_ts_class_expr_skipped q)).
 
 (* candidates: the claimed vector, the claimed vector with one flag switched off, the ideal *)
-Definition candidates (q : squirks) : list squirks := q :: map (fun i => with_flag i q) (seq 0 8) ++ [ideal].
+Definition candidates (q : squirks) : list squirks := q :: map (fun i => with_flag i q) (seq 0 9) ++ [ideal].
 
 Definition same (a b : list rep) : bool := ms_eqb rep_eqb a b.
 
